@@ -8,7 +8,9 @@ import (
 	"fmt"
 	"io"
 	"log/slog"
+	"runtime"
 	"strings"
+	"sync"
 
 	"verif/vlib"
 
@@ -169,6 +171,85 @@ func classify(doc string, e edit, got string) string {
 	return ""
 }
 
+// largeDocs: documents whose line numbers and columns cross the widths a packed or narrowed position would have
+// (2^k + 2 lines of "ab"; one line of 2^k + 2 characters followed by a second line): every ordered range over the
+// lines {0, 1, 2^k-1, 2^k, 2^k+1, last, last+1, last+2, 2^32-1} × columns {0, 1, beyond the end, 2^32-1} (and the
+// same around column 2^k of the long line), times three replacement texts, against the byte-splice reference.
+func largeDocs(run *vlib.Run, ks []int) (n int) {
+	type job struct {
+		doc string
+		e   edit
+	}
+	texts := []string{"", "x", "y\nz"}
+	check := func(name, doc string, ps []pos) {
+		var es []edit
+		for i, s := range ps {
+			for _, e := range ps[i:] {
+				if s.l == e.l && s.c > e.c {
+					continue
+				}
+				for _, t := range texts {
+					es = append(es, edit{s: s, e: e, text: t})
+				}
+			}
+		}
+		type res struct {
+			e         edit
+			got, want string
+			p         any
+		}
+		out := make([]res, len(es))
+		var wg sync.WaitGroup
+		for g := 0; g < runtime.NumCPU(); g++ {
+			g := g
+			wg.Add(1)
+			go func() {
+				defer wg.Done()
+				for i := g; i < len(es); i += runtime.NumCPU() {
+					got, _, p := applyReal(doc, es[i])
+					out[i] = res{es[i], got, refApply(doc, es[i].s, es[i].e, es[i].text), p}
+				}
+			}()
+		}
+		wg.Wait()
+		for _, r := range out {
+			n++
+			h := fmt.Sprintf("open(%s) ; %s", name, r.e)
+			if r.p != nil {
+				run.Violation("panic", fmt.Sprintf("Apply panicked: %v after %s", r.p, h), map[string]any{"history": h})
+			} else if r.got != r.want {
+				d := 0
+				for d < len(r.got) && d < len(r.want) && r.got[d] == r.want[d] {
+					d++
+				}
+				run.Violation("large-document-mismatch", fmt.Sprintf("%s: the server's copy has %d bytes / %d lines, the editor's %d bytes / %d lines; they differ from byte %d", h, len(r.got), strings.Count(r.got, "\n")+1, len(r.want), strings.Count(r.want, "\n")+1, d), map[string]any{"history": h})
+			}
+		}
+	}
+	const huge = 1<<32 - 1
+	for _, k := range ks {
+		n2 := 1 << k
+		lines := n2 + 2
+		doc := strings.Repeat("ab\n", lines-1) + "ab"
+		var ps []pos
+		for _, l := range []int{0, 1, n2 - 1, n2, n2 + 1, lines - 1, lines, lines + 1, huge} {
+			for _, c := range []int{0, 1, 3, huge} {
+				ps = append(ps, pos{l, c})
+			}
+		}
+		check(fmt.Sprintf("%d lines of \"ab\"", lines), doc, ps)
+		long := strings.Repeat("a", n2+2) + "\nb"
+		ps = nil
+		for _, l := range []int{0, 1, 2} {
+			for _, c := range []int{0, 1, n2 - 1, n2, n2 + 1, n2 + 2, n2 + 3, huge} {
+				ps = append(ps, pos{l, c})
+			}
+		}
+		check(fmt.Sprintf("a line of %d characters and a second line", n2+2), long, ps)
+	}
+	return n
+}
+
 // ---------- the server's notifications (DidOpen / DidChange / DidClose) ----------
 
 type stubTarget struct{ lsp.Server }
@@ -279,6 +360,7 @@ func serverHistories(run *vlib.Run, depth int) (n int) {
 func main() {
 	run := vlib.Start("C17", "model_checking")
 	run.Cov["server_notification_histories"] = serverHistories(run, run.Pick(3, 4))
+	run.Cov["edits_of_large_documents"] = largeDocs(run, map[bool][]int{false: {8, 12, 16}, true: {8, 12, 16, 20}}[run.Thorough()])
 	maxDoc := run.Pick(4, 5)
 	depth := run.Pick(2, 3)
 	capLen := 7
